@@ -758,7 +758,7 @@ pub fn run(r: &mut Runner) {
     r.assume("only support for a rival value of a functional predicate opposes the target; an assertion without an actor shares an actor with nobody (both stated in projection/mod.rs); whether ineligible rival assertions are listed as excluded, which end of a validity window is inclusive and which reason wins when several exclusion stages apply are not specified and not compared");
     r.assume("evaluation time always comes from FOR TIME; the engine's transaction timestamps are never compared");
     r.assume("the evaluation instant is spelled as a valid RFC 3339 timestamp in one of six ways (Z, milliseconds, +00:00, +08:00, -05:00 / -12:00, +14:00): the projection is a function of the instant, not of its spelling (seeded change C20-2)");
-    r.set_case_timeout_ms(120_000);
+    r.set_case_timeout_ms(300_000);
     let max = r.tier.pick(3, 5);
     r.sub_enum(
         "grouping_exhaustive",
